@@ -187,6 +187,18 @@ func (g *Gen) typeRef(s *Scope) *TypeRef {
 	if g.TypeErrors && g.pick(40) == 0 {
 		// error side: a name nothing defines, behind no prefix, the own prefix or an unknown prefix
 		bad := g.name("nosuch")
+		if g.pick(3) == 0 {
+			// a built-in name behind a prefix is not the built-in type: it names a typedef of
+			// that module, and there is none
+			bad = []string{"string", "uint8", "boolean", "union", "enumeration"}[g.pick(5)]
+			switch im := s.File.Imports; {
+			case len(im) > 0 && g.pick(2) == 0:
+				bad = im[g.pick(len(im))].Prefix + ":" + bad
+			default:
+				bad = s.File.Prefix + ":" + bad
+			}
+			return &TypeRef{Name: bad, Scope: s}
+		}
 		switch g.pick(3) {
 		case 1:
 			bad = s.File.Prefix + ":" + bad
